@@ -607,3 +607,60 @@ package solver
 //@   loop 1
 //@     invariant idx: 0 <= rangei && rangei <= len(s.reason) && len(lits) == lvls - 1 && fresh(lits) && lvls == absi(s.model[s.trail[len(s.trail)-1] / 2])
 //@     invariant dec: forall(v, 0, rangei, s.reason[v] == nil && absi(s.model[v]) > 1 ==> lits[absi(s.model[v]) - 2] == ite(s.model[v] < 0, 2*v, 2*v+1))
+
+// ---------------------------------------------------------------- assumptions (C10)
+
+//@ define litsWF(l []Lit, n int) bool = forall(k, 0, len(l), 0 <= l[k] && l[k] / 2 < n)
+//@ define noAssume(s *Solver) bool = forall(v, 0, len(s.assumptions), !s.assumptions[v])
+
+// cleanupBindings(lvl): every binding made above level lvl is undone, the others are kept
+// (trusted: the trail / queue bookkeeping is not verified).
+//@ func (*Solver).cleanupBindings
+//@   trusted
+//@   requires wf: s != nil && WFlen(s)
+//@   modifies s.model[*], s.reason[*], s.polarity[*], s.trail, s.varQueue, s.trailBuf[*], all Clause.lbdValue, all []int
+//@   ensures  keep:  forall(v, 0, s.nbVars, absi(old(s.model[v])) <= lvl ==> s.model[v] == old(s.model[v]))
+//@   ensures  undo:  forall(v, 0, s.nbVars, absi(old(s.model[v])) > lvl ==> s.model[v] == 0)
+//@   ensures  trail: len(s.trail) <= old(len(s.trail)) && sameArray(s.trail, old(s.trail))
+//@   ensures  wf:    WFlen(s) && WFsep(s) && WFsepWl(s)
+
+// addLearnedUnit binds the literal at level 1 (and reports it when certification is on)
+//@ func (*Solver).addLearnedUnit
+//@   requires wf: s != nil && unit >= 0 && unit / 2 < len(s.model)
+//@   requires ch: s.Certified && s.CertChan != nil ==> !closed(s.CertChan)
+//@   modifies s.model[*]
+//@   ensures  bound: s.model[unit / 2] == ite(unit % 2 == 0, 1, -1)
+//@   ensures  rest:  forall(v, 0, len(s.model), v != unit / 2 ==> s.model[v] == old(s.model[v]))
+
+// propagate (trusted): propagation only binds unbound variables; a nil result means no conflict
+//@ func (*Solver).propagate
+//@   trusted
+//@   requires wf: s != nil && WFlen(s)
+//@   modifies s.model[*], s.reason[*], s.trail, s.trail[*], all Clause.lbdValue, all []Lit, all []int, all []bool, all []watcher, all [][]watcher, all [][]*Clause, all Clause.activity, s.Stats.*, s.lbdStats.*
+//@   ensures  keep: forall(v, 0, s.nbVars, old(s.model[v]) != 0 ==> s.model[v] == old(s.model[v]))
+//@   ensures  flags: forall(v, 0, len(s.assumptions), s.assumptions[v] == old(s.assumptions[v]))
+//@   ensures  wf:   WFlen(s)
+
+// Assume: the previous round's assumptions are dropped, the problem's unit constraints are bound
+// again, exactly the listed variables are flagged, and unless the round is refuted at once every
+// unit constraint and every listed literal is true at the top level.
+//@ func (*Solver).Assume
+//@   requires wf:   s != nil && WFlen(s) && WFsep(s) && WFsepWl(s) && litsWF(lits, s.nbVars) && litsWF(s.units, s.nbVars) && arr(lits) != arr(s.trail) && arr(s.units) != arr(s.trail)
+//@   requires ch:   s.Certified && s.CertChan != nil ==> !closed(s.CertChan)
+//@   modifies s.model[*], s.reason[*], s.polarity[*], s.trail, s.trail[*], s.varQueue, s.trailBuf[*], s.assumptions, s.status, all Clause.lbdValue, all []Lit, all []int, all []bool, all []watcher, all [][]watcher, all [][]*Clause, all Clause.activity, s.Stats.*, s.lbdStats.*
+//@   ensures  flags: result != Unsat ==> forall(v, 0, s.nbVars, s.assumptions[v] <==> exists(k, 0, len(lits), old(lits[k]) / 2 == v))
+//@   ensures  bound: result != Unsat ==> forall(k, 0, len(lits), s.model[old(lits[k]) / 2] == ite(old(lits[k]) % 2 == 0, 1, -1))
+//@   ensures  units: result != Unsat ==> forall(k, 0, len(s.units), s.model[old(s.units[k]) / 2] == ite(old(s.units[k]) % 2 == 0, 1, -1))
+//@   loop 1
+//@     modifies s.model[*], s.trail, s.trail[*]
+//@     invariant idx:   0 <= rangei && rangei <= len(s.units) && WFlen(s) && len(s.assumptions) == s.nbVars && fresh(s.assumptions) && grown(s.trail)
+//@     invariant same:  forall(k, 0, len(s.units), s.units[k] == old(s.units[k])) && forall(k, 0, len(lits), lits[k] == old(lits[k]))
+//@     invariant noflag: forall(v, 0, s.nbVars, !s.assumptions[v])
+//@     invariant units: forall(k, 0, rangei, s.model[old(s.units[k]) / 2] == ite(old(s.units[k]) % 2 == 0, 1, -1))
+//@   loop 2
+//@     modifies s.model[*], s.assumptions[*], s.trail, s.trail[*]
+//@     invariant idx:   0 <= rangei && rangei <= len(lits) && WFlen(s) && len(s.assumptions) == s.nbVars && fresh(s.assumptions) && grown(s.trail)
+//@     invariant same:  forall(k, 0, len(lits), lits[k] == old(lits[k])) && forall(k, 0, len(s.units), s.units[k] == old(s.units[k]))
+//@     invariant flags: forall(v, 0, s.nbVars, s.assumptions[v] <==> exists(k, 0, rangei, old(lits[k]) / 2 == v))
+//@     invariant bound: forall(k, 0, rangei, s.model[old(lits[k]) / 2] == ite(old(lits[k]) % 2 == 0, 1, -1))
+//@     invariant units: forall(k, 0, len(s.units), s.model[old(s.units[k]) / 2] == ite(old(s.units[k]) % 2 == 0, 1, -1))
